@@ -43,6 +43,7 @@ LEVEL_NOTE = ("partial: the theorems cover bytes -> primitives (own proofs), dec
               "(typed objects, fonts, colour spaces, functions, images, trees, scan, external decoders) is covered by exploration only")
 
 CONFIGS = [(b"s", b"c"), (b"s", b"n"), (b"t", b"c"), (b"t", b"n")]
+XREF_SHAPES = ("cycle:prev", "cycle:xref", "cycle:startxref", "cycle:objstm", "cycle:length")
 
 
 def _case(data, cfg, tags, kind="structured", note=""):
@@ -105,9 +106,16 @@ def _walk_generate(rng, tier):
     #    object-stream indices around /N, xref-stream widths), whose theorems Properties/C01.v / C14.v import.
     pick = list(H.planted(rng, "quick"))
     for i, (tag, data) in enumerate(pick):
-        c = emit(data, CONFIGS[i % 4] if tag.split(":")[0] != "deep" else CONFIGS[(i % 2) * 2 + 1], ["planted", "planted:" + tag.split(":")[0]], note=tag)
-        if c:
-            yield c
+        # the shapes of the cross-reference chain itself, with bytes before the header: every configuration (a /Prev loop that the
+        # guard misses spins in `load` whatever the options are, but the time-out must be seen in each)
+        if tag.endswith("+prefix:1byte") and tag.startswith(XREF_SHAPES):
+            cfgs = CONFIGS
+        else:
+            cfgs = [CONFIGS[i % 4] if tag.split(":")[0] != "deep" else CONFIGS[(i % 2) * 2 + 1]]
+        for cfg in cfgs:
+            c = emit(data, cfg, ["planted", "planted:" + tag.split(":")[0]] + (["prefixed"] if "+prefix:" in tag else []), note=tag)
+            if c:
+                yield c
 
 
 def nontrivial(c):
